@@ -7,7 +7,8 @@
    on graph g;  timer k  is the answer of is_time_limit_reached to the k-th evaluate_single call
    of the fan-out;  d : delegate  is None or Some compute_graphs;  eff_graph d pop i  is the
    graph individual i is evaluated on by the parallel dispatcher (the delegate's graph for it,
-   else its own);  evaluated_ind o g i  is i with fitness objective_value o g and graph g.
+   else its own), eff_graph_seq d pop i the same for the sequential dispatcher (which hands the
+   population to the delegate in input order, the parallel one in reversed order);  evaluated_ind o g i  is i with fitness objective_value o g and graph g.
    evaluate_with_cache = MultiprocessingDispatcher.dispatch(...)(pop),
    sequential_evaluate = SequentialDispatcher.dispatch(...)(pop); both return (result, event log).
    Assumed everywhere: the not-yet-evaluated individuals have pairwise distinct uids. *)
@@ -25,9 +26,11 @@ Theorem C05_parallel_characterised : forall o d timer pop,
 Proof. exact evaluate_with_cache_closed. Qed.
 Print Assumptions C05_parallel_characterised.
 
-Theorem C05_sequential_characterised : forall o timer pop,
+Theorem C05_sequential_characterised : forall o d timer pop,
   NoDup (map uid (to_evaluate pop)) ->
-  sequential_evaluate o timer pop = (Ok (seq_spec o timer pop), main_log_spec o gr timer (to_evaluate pop)).
+  sequential_evaluate o d timer pop =
+  (Ok (seq_spec o (eff_graph_seq d pop) timer pop),
+   main_log_spec o (eff_graph_seq d pop) timer (to_evaluate pop)).
 Proof. exact sequential_evaluate_closed. Qed.
 Print Assumptions C05_sequential_characterised.
 
@@ -47,13 +50,15 @@ Theorem C05_eval_sound_parallel : forall o d timer pop,
 Proof. exact eval_sound_par. Qed.
 Print Assumptions C05_eval_sound_parallel.
 
-Theorem C05_eval_sound_sequential : forall o timer pop,
+Theorem C05_eval_sound_sequential : forall o d timer pop,
   NoDup (map uid (to_evaluate pop)) ->
-  exists out lg, sequential_evaluate o timer pop = (Ok out, lg) /\
+  exists out lg, sequential_evaluate o d timer pop = (Ok out, lg) /\
     (forall x, In x out ->
        valid (fitness x) = true /\
-       (In x pop \/ (exists i, In i pop /\ valid (fitness i) = false /\ x = evaluated_ind o (gr i) i))) /\
-    (forall g, In g (metric_graphs lg) -> exists i, In i pop /\ valid (fitness i) = false /\ g = gr i).
+       (In x pop \/
+        (exists i, In i pop /\ valid (fitness i) = false /\ x = evaluated_ind o (eff_graph_seq d pop i) i))) /\
+    (forall g, In g (metric_graphs lg) ->
+       exists i, In i pop /\ valid (fitness i) = false /\ g = eff_graph_seq d pop i).
 Proof. exact eval_sound_seq. Qed.
 Print Assumptions C05_eval_sound_sequential.
 
@@ -70,12 +75,13 @@ Print Assumptions C05_valid_iff_evaluable.
 (* ---- (2) eval_complete: the k-th individual to evaluate is present in the output iff it was
    not cut off by the time limit and its evaluation yields a valid fitness - i.e. it is missing
    iff its evaluation raised / yielded no value / NaN / was cut by the timer *)
-Theorem C05_eval_complete_sequential : forall o timer pop k i,
+Theorem C05_eval_complete_sequential : forall o d timer pop k i,
   NoDup (map uid (to_evaluate pop)) ->
   In (k, i) (index_from 0 (to_evaluate pop)) ->
   ~ In (uid i) (map uid (to_skip pop)) ->
-  forall out lg, sequential_evaluate o timer pop = (Ok out, lg) ->
-  ((exists x, In x out /\ uid x = uid i) <-> timer k = false /\ valid (objective_value o (gr i)) = true).
+  forall out lg, sequential_evaluate o d timer pop = (Ok out, lg) ->
+  ((exists x, In x out /\ uid x = uid i) <->
+   timer k = false /\ valid (objective_value o (eff_graph_seq d pop i)) = true).
 Proof. exact eval_complete_seq. Qed.
 Print Assumptions C05_eval_complete_sequential.
 
@@ -109,10 +115,10 @@ Theorem C05_order_independent_parallel : forall shuffle o d timer pop,
 Proof. exact order_independent_par. Qed.
 Print Assumptions C05_order_independent_parallel.
 
-Theorem C05_order_independent_sequential : forall shuffle o timer pop,
+Theorem C05_order_independent_sequential : forall shuffle o d timer pop,
   (forall l, Permutation (shuffle l) l) ->
   NoDup (map uid (to_evaluate pop)) ->
-  sequential_evaluate_shuffled shuffle o timer pop = sequential_evaluate o timer pop.
+  sequential_evaluate_shuffled shuffle o d timer pop = sequential_evaluate o d timer pop.
 Proof. exact order_independent_seq. Qed.
 Print Assumptions C05_order_independent_sequential.
 
@@ -122,14 +128,14 @@ Theorem C05_sequential_parallel_same : forall o pop,
   NoDup (map uid (to_evaluate pop)) ->
   exists out_p out_s,
     fst (evaluate_with_cache o None (fun _ => false) pop) = Ok out_p /\
-    fst (sequential_evaluate o (fun _ => false) pop) = Ok out_s /\
+    fst (sequential_evaluate o None (fun _ => false) pop) = Ok out_s /\
     Permutation out_p out_s.
 Proof. exact seq_par_same. Qed.
 Print Assumptions C05_sequential_parallel_same.
 
 Theorem C05_parallel_is_sequential_on_reversed : forall o timer pop,
   NoDup (map uid (to_evaluate pop)) -> ~ main_pass_empty o None timer pop ->
-  fst (evaluate_with_cache o None timer pop) = fst (sequential_evaluate o timer (rev pop)).
+  fst (evaluate_with_cache o None timer pop) = fst (sequential_evaluate o None timer (rev pop)).
 Proof. exact par_is_seq_on_reversed. Qed.
 Print Assumptions C05_parallel_is_sequential_on_reversed.
 
@@ -137,7 +143,7 @@ Print Assumptions C05_parallel_is_sequential_on_reversed.
    the order of the results decides, and one receives the fitness of the other's graph *)
 Theorem C05_duplicate_uids_order_matters_refuted :
   exists o timer pop,
-    fst (sequential_evaluate_shuffled (@rev _) o timer pop) <> fst (sequential_evaluate o timer pop).
+    fst (sequential_evaluate_shuffled (@rev _) o None timer pop) <> fst (sequential_evaluate o None timer pop).
 Proof. exists w_objective, (fun _ => false), w_dup_pop. exact (proj1 duplicate_uids_order_matters). Qed.
 Print Assumptions C05_duplicate_uids_order_matters_refuted.
 
@@ -182,10 +188,10 @@ Theorem C05_callback_once_parallel : forall o d timer pop lg',
 Proof. exact callback_once_par. Qed.
 Print Assumptions C05_callback_once_parallel.
 
-Theorem C05_callback_once_sequential : forall o timer pop lg',
+Theorem C05_callback_once_sequential : forall o d timer pop lg',
   NoDup (map uid (to_evaluate pop)) ->
-  Permutation lg' (snd (sequential_evaluate o timer pop)) ->
-  Permutation (callback_graphs lg') (map gr (not_cut timer (to_evaluate pop))).
+  Permutation lg' (snd (sequential_evaluate o d timer pop)) ->
+  Permutation (callback_graphs lg') (map (eff_graph_seq d pop) (not_cut timer (to_evaluate pop))).
 Proof. exact callback_once_seq. Qed.
 Print Assumptions C05_callback_once_sequential.
 
@@ -214,8 +220,9 @@ Proof.
 Qed.
 Print Assumptions C05_failing_graph_seen_twice_refuted.
 
-(* ---- (6) delegate_used: the k-th individual of the reversed population is evaluated on the
-   k-th graph the delegate returned (eval_sound_parallel: fitness = objective of that graph) *)
+(* ---- (6) delegate_used, both dispatchers: the k-th individual handed to the delegate (reversed
+   population for the parallel dispatcher, input order for the sequential one) is evaluated on
+   the k-th graph the delegate returned (eval_sound_*: fitness = objective of that graph) *)
 Theorem C05_delegate_used : forall f pop k i g,
   NoDup (map uid pop) ->
   nth_error (rev pop) k = Some i ->
@@ -223,6 +230,14 @@ Theorem C05_delegate_used : forall f pop k i g,
   eff_graph (Some f) pop i = g.
 Proof. exact delegate_used. Qed.
 Print Assumptions C05_delegate_used.
+
+Theorem C05_delegate_used_sequential : forall f pop k i g,
+  NoDup (map uid pop) ->
+  nth_error pop k = Some i ->
+  nth_error (f (map gr pop)) k = Some g ->
+  eff_graph_seq (Some f) pop i = g.
+Proof. exact delegate_used_seq. Qed.
+Print Assumptions C05_delegate_used_sequential.
 
 Theorem C05_delegate_silent : forall f pop i,
   ~ In (uid i) (map fst (combine (map uid (rev pop)) (f (map gr (rev pop))))) ->
@@ -293,14 +308,14 @@ Print Assumptions C05_clause_callback_reflects.
    metric, the oracle holds_b accepts what the model does - for both dispatchers, every objective
    table, time-limit pattern and delegate.  labels_ok says that looking the delegate's answer up by
    graph label (as the oracle does) finds the graph computed for the individual; it holds without
-   delegate, for the sequential dispatcher, and whenever labels and uids are pairwise distinct. *)
+   delegate and whenever labels and uids are pairwise distinct. *)
 Theorem C05_oracle_accepts_model : forall c,
   in_scope c = true -> c_nmetrics c <> 0 -> labels_ok c -> holds_b c (model_observed c) = true.
 Proof. exact oracle_accepts_model. Qed.
 Print Assumptions C05_oracle_accepts_model.
 
 Theorem C05_labels_ok_sufficient : forall c,
-  c_par c = false \/ c_delegate c = None \/ (NoDup (map gr (c_pop c)) /\ NoDup (map uid (c_pop c))) ->
+  c_delegate c = None \/ (NoDup (map gr (c_pop c)) /\ NoDup (map uid (c_pop c))) ->
   labels_ok c.
 Proof. exact labels_ok_sufficient. Qed.
 Print Assumptions C05_labels_ok_sufficient.
@@ -344,7 +359,7 @@ Example expired_example :
   evaluate_with_cache o None (fun _ => true) pop
   = (Ok [ {| uid := 5; fitness := FSingle [2%Q]; gr := 5 |} ],
      [EvMetric 0 4; EvCallback 4; EvMetric 0 5; EvCallback 5]) /\
-  fst (sequential_evaluate o (fun _ => true) pop) = Ok [].
+  fst (sequential_evaluate o None (fun _ => true) pop) = Ok [].
 Proof. unfold main_pass_empty. vm_compute. repeat split. Qed.
 
 (* a case with an enabled delegate that satisfies the hypotheses of C05_oracle_accepts_model *)
@@ -364,4 +379,22 @@ Example oracle_hypotheses_satisfiable :
 Proof.
   cbv zeta. split; [vm_compute; reflexivity|]. split; [simpl; discriminate|]. split; [|split; vm_compute; reflexivity].
   split; vm_compute; repeat constructor; simpl; intuition discriminate.
+Qed.
+
+(* the sequential dispatcher with the same enabled delegate: the population is handed over in
+   input order (labels 100 121 142 162 184 205), the first call is cut off, the rest evaluated *)
+Example sequential_delegate_example :
+  let o := objective_of_table [ (121, [MVal 1; MRaise]); (184, [MVal 2; MVal 3]); (205, [MVal 5; MVal 7]) ] 2 true in
+  NoDup (map uid (to_evaluate ex_pop)) /\
+  eff_graph_seq ex_delegate ex_pop {| uid := 5; fitness := Null; gr := 5 |} = 205 /\
+  sequential_evaluate o ex_delegate ex_timer ex_pop
+  = (Ok [ {| uid := 4; fitness := FMulti [2%Q; 3%Q]; gr := 184 |};
+          {| uid := 5; fitness := FMulti [5%Q; 7%Q]; gr := 205 |}; ex_pre; ex_pre ],
+     [EvMetric 0 121; EvMetric 1 121; EvCallback 121; EvMetric 0 184; EvMetric 1 184; EvCallback 184;
+      EvMetric 0 205; EvMetric 1 205; EvCallback 205]).
+Proof.
+  cbv zeta. split; [|split].
+  - vm_compute. repeat constructor; simpl; intuition discriminate.
+  - vm_compute. reflexivity.
+  - vm_compute. reflexivity.
 Qed.
